@@ -132,7 +132,13 @@ def random_callset(rng, nsamples=None, nrecords=None, p_missing=None, p_multi=No
             extra_fmt["DP"] = [None if rng.random() < 0.1 else rng.randrange(0, 300) for _ in range(ns)]
             if rng.random() < 0.6:
                 extra_fmt["GQ"] = [None if rng.random() < 0.2 else rng.randrange(0, 99) for _ in range(ns)]
-        rec = Record(contig, pos[contig], gts, ref=rng.choice(["A", "C", "G", "T", "AT"]), alts=alts,
+        no_gt = False
+        if use_fmt and not complete_only and rng.random() < 0.03:
+            # a record whose FORMAT has no GT key at all (valid): every sample is missing
+            no_gt = True
+            gts = [gt((None, None), False) for _ in range(ns)]
+            extra_fmt = {"DP": [rng.randrange(0, 300) for _ in range(ns)]}
+        rec = Record(contig, pos[contig], gts, ref=rng.choice(["A", "C", "G", "T", "AT"]), alts=alts, no_gt=no_gt,
                      id="." if rng.random() < 0.7 else "rs%d" % rng.randrange(10 ** 6),
                      qual=None if rng.random() < 0.6 else rng.choice([0, 10, 29.5, 100, 3000]),
                      filt=None if rng.random() < 0.6 else ([rng.choice(filters)]),
